@@ -1127,10 +1127,14 @@ def gen_skipconc_free(rng, tier, sess):
 
 
 def gen_skipconc_scan(rng, tier, sess):
-    """thread 0 scans with a finite refresh interval while the other threads insert and delete around it"""
+    """thread 0 scans with a finite refresh interval while the other threads insert and delete around it; in a third
+    of the runs with real reclamation (mem=mmfree, deletes are `delf`; an `ins k` and a `delf k` never overlap, see
+    gen_skipconc)"""
     n = rng.choice((2, 3))
     nkeys = rng.choice((3, 5, 8))
-    sess.send('threads %d%s' % (n, rng.choice(('', ' mem=go'))))
+    free = rng.random() < 0.34
+    inflight = [None] * n
+    sess.send('threads %d%s' % (n, ' mem=mmfree' if free else rng.choice(('', ' mem=go'))))
     for k in range(nkeys):
         if rng.random() < 0.7:
             o = sess.send('start 0 ins %d lvl=%d' % (k * 2 + 2, rng.choice((0, 0, 1, 2))))
@@ -1140,8 +1144,15 @@ def gen_skipconc_scan(rng, tier, sess):
     o = sess.send('start 0 it_first s')
     valid = o.startswith('ret') and o != 'ret end'
     sess.send('start 0 it_interval s %d' % rng.choice((1, 1, 2, 3)))
+    stick = rng.random() * 0.92
+    last = 0
     for _ in range(rng.randrange(20, 160 if tier == 'quick' else 500)):
-        t = 0 if rng.random() < 0.45 else rng.randrange(1, n)
+        # sticky scheduling: whole calls of the other threads have to fit between two segments of the scanner
+        if rng.random() < stick:
+            t = last
+        else:
+            t = 0 if rng.random() < 0.45 else rng.randrange(1, n)
+        last = t
         if busy[t]:
             o = sess.send('step %d' % t)
         elif t == 0:
@@ -1151,11 +1162,17 @@ def gen_skipconc_scan(rng, tier, sess):
                 o = sess.send(rng.choice(('start 0 it_first s', 'start 0 it_seek s %d' % rng.randrange(nkeys * 2 + 3))))
         else:
             k = rng.randrange(nkeys) * 2 + 2
-            if rng.random() < 0.5:
+            want = 'ins' if rng.random() < 0.5 else ('delf' if free else 'del')
+            if free and any(x == ({'ins': 'delf', 'delf': 'ins'}[want], k) for x in inflight):
+                want = 'look'
+            inflight[t] = (want, k)
+            if want == 'ins':
                 o = sess.send('start %d ins %d lvl=%d' % (t, k, rng.choice((0, 0, 1, 2))))
             else:
-                o = sess.send('start %d del %d' % (t, k))
+                o = sess.send('start %d %s %d' % (t, want, k))
         busy[t] = o.startswith('at ')
+        if not busy[t]:
+            inflight[t] = None
         if t == 0 and o.startswith('ret'):
             valid = o != 'ret end' and o != 'ret'
     guard = 0
